@@ -1018,6 +1018,13 @@ class MkcalendarMethod(webdav.Method):
                 error=ET.Element("{DAV:}resource-must-be-null"),
                 description=f"Something already exists at {path!r}",
             )
+        if base_content_type in ("text/xml", "application/xml"):
+            # parse the body before creating anything
+            et = await webdav._readXmlBody(
+                request,
+                "{urn:ietf:params:xml:ns:caldav}mkcalendar",
+                strict=app.strict,
+            )
         try:
             resource = app.backend.create_collection(path)
         except FileNotFoundError:
@@ -1029,11 +1036,6 @@ class MkcalendarMethod(webdav.Method):
         ET.SubElement(el, "{urn:ietf:params:xml:ns:caldav}calendar")
         await app.properties["{DAV:}resourcetype"].set_value(href, resource, el)
         if base_content_type in ("text/xml", "application/xml"):
-            et = await webdav._readXmlBody(
-                request,
-                "{urn:ietf:params:xml:ns:caldav}mkcalendar",
-                strict=app.strict,
-            )
             propstat = []
             for el in et:
                 if el.tag != "{DAV:}set":
